@@ -35,7 +35,7 @@ def main():
     if "--rebased" in args:
         i = args.index("--rebased"); rebased = args[i + 1]; del args[i:i + 2]
     seed_dir, props = args[0].rstrip("/"), args[1].split(",")
-    m = re.search(r"/(C\d+b?)-out/(m\d+)$", seed_dir)
+    m = re.search(r"/(C\d+[a-z]?)-out/(m\d+)$", seed_dir)
     wt_id, mi = (m.group(1), m.group(2)) if m else (props[0], "m1")
     name = name or f"{wt_id}-{mi}"
     patch = os.path.join(seed_dir, "patch.diff")
